@@ -39,7 +39,7 @@ func (m *mixed) Level() string {
 var mixedOps = []string{"send", "delegate", "undelegate", "redelegate", "withdraw", "set_withdraw", "withdraw_comm", "fund_pool",
 	"authz_grant", "authz_exec", "gov_submit", "gov_deposit", "gov_vote",
 	"vest_create", "vest_convert_into", "vest_clawback", "vest_update_funder", "vest_convert_back",
-	"lv_liquidate", "lv_redeem", "dao_fund", "dao_xfer", "erc20_convert_coin", "erc20_convert_erc20", "eth_transfer"}
+	"lv_liquidate", "lv_redeem", "dao_fund", "dao_xfer", "erc20_convert_coin", "erc20_convert_erc20", "eth_transfer", "eth_probe"}
 
 func (m *mixed) Configure(r *e.RNG, tier string) e.Config {
 	c := e.DefaultConfig()
@@ -69,6 +69,14 @@ func (m *mixed) Configure(r *e.RNG, tier string) e.Config {
 		}
 	}
 	c.Flags["w_send"] = r.Range(1, 4) // always some traffic
+	c.Flags["w_govevm"] = r.Range(0, 3)
+	if c.Flags["w_govevm"] > 0 {
+		if r.Chance(0.6) {
+			c.Flags["genesis_drop_precompile"] = r.Range(1, 2) // p256 or bech32 inactive at genesis
+		}
+		c.Flags["w_eth_probe"] = r.Range(2, 5)
+		c.GovVotingSecs = r.Range(2, 15)
+	}
 	c.Flags["w_blk"] = r.Range(6, 16)
 	c.Flags["p_absent"] = r.Range(0, 30)   // percent of blocks with an absent validator
 	c.Flags["p_evidence"] = r.Range(0, 10) // percent of blocks with double-sign evidence
@@ -177,7 +185,7 @@ func (m *mixed) Gen(w *e.World, r *e.RNG) e.Step {
 	for _, n := range names {
 		weights = append(weights, int(f["w_"+n]))
 	}
-	extra := []string{"blk", "traffic", "crash", "stall", "join"}
+	extra := []string{"blk", "traffic", "crash", "stall", "join", "govevm"}
 	for _, n := range extra {
 		weights = append(weights, int(f["w_"+n]))
 	}
@@ -204,7 +212,12 @@ func (m *mixed) Gen(w *e.World, r *e.RNG) e.Step {
 			i = 2 // replica 1 restarts at every boundary anyway; replica 2 at random points incl. mid-block
 		}
 		return e.Step{K: "crash", A: i}
+	case "govevm":
+		return e.Step{K: "gov", N: []int64{int64(r.Weighted([]int{4, 2, 3, 1})), r.Range(0, 7)}}
 	case "stall":
+		if len(w.Reps) < 2 {
+			return genBlk(w, r)
+		}
 		return e.Step{K: "stall", A: 1 + r.Intn(len(w.Reps)-1), N: []int64{r.Range(1, 6)}}
 	default:
 		if w.Height < 3 || len(w.Reps) >= 6 {
@@ -240,6 +253,12 @@ func (m *mixed) Exec(w *e.World, st *e.Step) *e.Violation {
 		return nil
 	case "tx":
 		ExecOp(w, st)
+		return nil
+	case "gov":
+		// EVM parameter change by governance: proposal and votes are txs of this block
+		if msgs := evmGovMsgs(w, st.NArg(0), st.NArg(1)); msgs != nil {
+			govPass(w, msgs)
+		}
 		return nil
 	case "crash":
 		if st.A <= 0 || st.A >= len(w.Reps) {
